@@ -321,6 +321,10 @@ def o_diff(case):
     if got != ref:
         raise Fail("socket-differs-from-file", "same raw frames but different parsed attributes")
     cls = [f"bufsize{case['bufsize']}"] + (["chunked-" + case["enc"]] if case.get("enc") else []) + (["socket-wrapped-by-caller"] if case.get("prewrap") else [])
+    if any(i.get("aligned") for i in items):
+        cls.append("item-aligned-to-bufsize")
+    if case["bufsize"] > 1 and len(case["cuts"]) >= 2 and all(c % case["bufsize"] == 0 for c in case["cuts"]):
+        cls.append("every-receive-fills-the-buffer")
     off = 0
     cut_in_frame = False
     for i in items:
@@ -338,6 +342,9 @@ def o_diff(case):
 @st.composite
 def s_diff(draw, tier):
     items = streams.flatten(draw(st.lists(st.one_of(streams.wellformed_items("small", fillers_ok=False), streams.damaged_frames("small")), min_size=1, max_size=10)))
+    bufsize = draw(st.sampled_from(BUFS))
+    if draw(st.integers(0, 3)) == 0:
+        items = draw(streams.align_to(items, bufsize))
     n = sum(len(i["b"]) // 2 for i in items)
     extra = {"prewrap": draw(st.integers(0, 3)) == 0}
     if draw(st.integers(0, 3)) == 0:
@@ -347,10 +354,12 @@ def s_diff(draw, tier):
     if mode <= 1 and "enc" not in extra:
         # one item per segment (a sender that writes message by message), or one segment per read request of the reader
         cuts = streams.boundaries(items) if mode == 0 else streams.structure_cuts(items)
+    elif mode == 2 and bufsize > 1:
+        cuts = streams.modulus_cuts(n, bufsize)  # every receive fills the buffer exactly
     else:
         cuts = draw(streams.partitions(n))
     extra["validate"] = draw(st.sampled_from([1, 1, 0]))
-    return {**extra, "items": items, "cuts": cuts, "bufsize": draw(st.sampled_from(BUFS)), "qoe": draw(st.sampled_from([0, 1])), "labelmsm": draw(st.sampled_from([1, 2]))}
+    return {**extra, "items": items, "cuts": cuts, "bufsize": bufsize, "qoe": draw(st.sampled_from([0, 1])), "labelmsm": draw(st.sampled_from([1, 2]))}
 
 
 # ------------------------------------------------------------------ a stall inside a frame costs at most that frame
